@@ -20,4 +20,4 @@ Separate Extraction
   EvalIO.run_eval EvalIO.run_eval_lexical EvalIO.run_typing EvalIO.run_strat EvalIO.run_doc EvalIO.run_doc_base EvalIO.run_edges
   Lexer.tokenize Lexer.spans
   Diag.diagnostics
-  Folder.f_goto Folder.f_references Folder.f_rename.
+  Folder.f_goto Folder.f_references Folder.f_rename Folder.f_prepare.
